@@ -6,6 +6,7 @@ from hypothesis import strategies as st
 
 NAMES = ["x", "y", "z", "w"]
 SUBNAMES = ["t", "lat", "at", "la"]     # names that are substrings of one another / of a comma-joined group name
+DEFAULTISH = ["x1", "x0", "x3", "x2"]   # the library's default names x<i>, attached to other positions than i
 WORDS = ["a", "b", "c", "d", "e", "f", "g", "h", "k", "m"]
 NUMWORDS = ["2", "10", "7", "05", "1e3", "-1", "3.5"]        # strings that look like numbers (they are strings)
 
@@ -13,7 +14,7 @@ NUMWORDS = ["2", "10", "7", "05", "1e3", "-1", "3.5"]        # strings that look
 def names_pool():
     """dimension names: usually x/y/z/w, sometimes names that are substrings of one another"""
     from hypothesis import strategies as st
-    return st.integers(0, 7).map(lambda k: SUBNAMES if k == 0 else NAMES)
+    return st.integers(0, 9).map(lambda k: SUBNAMES if k == 0 else (DEFAULTISH if k == 1 else NAMES))
 
 
 def order_of(labels):
@@ -89,7 +90,7 @@ def array_spec(draw, min_dims=0, max_dims=4, min_size=0, max_size=4, kinds="ifs"
                names=None, dims=None, square=False, hist=True):
     """description of a DimArray (see core.build)"""
     if names is None:
-        names = SUBNAMES if draw(st.integers(0, 7)) == 0 else NAMES
+        names = draw(names_pool())
     if dims is None:
         nd = draw(st.integers(min_dims, max_dims))
         dims = list(draw(st.permutations(names)))[:nd]
